@@ -145,7 +145,7 @@ def gen_params(rng, cls, shape, N, pid, faults):
         if rng.random() < 0.45:
             p["full_fraction"] = rng.choice([1e-9, 0.01, 0.1, 0.3, 0.5, 0.9, 0.99, 1.0, round(rng.uniform(0.01, 1.0), 3)])
         else:
-            p["n_trial_calculation"] = rng.randint(1, 5)
+            p["n_trial_calculation"] = rng.choice([1, 2, 3, 4, 5, 5, 6, 8, 12])
     if rng.random() < (0.25 if faults else 0.08):
         p["progress_bar"] = True
     if pid == "C01" and rng.random() < 0.1:
@@ -472,6 +472,8 @@ def _c08_object(rng, o, heap, faults, exhaustive=None):
     else:
         xs = gen_X(rng, C08_KINDS_CUR if fam in ("cur", "pcovcur") else C08_KINDS_FPS, 5, 30, 5, 14)
     xn, yn = f"X{o}", None
+    if not exhaustive and rng.random() < 0.12:
+        xs["cast"] = "float32"  # the caller's single-precision data (kept in float32 by the library)
     heap[xn] = xs
     if info["y"] == "req" or rng.random() < 0.4:
         yn = f"y{o}"
@@ -497,7 +499,7 @@ def gen_c08(rng, idx, tier, faults):
     exhaustive = idx % (20 if tier == "thorough" else 200) == 0
     if exhaustive:
         cls, info, fam, xs, xn, yn, n_from, p, limit = _c08_object(rng, 0, heap, faults, exhaustive=True)
-        n = min(6, limit)
+        n = min(7 if (tier == "thorough" and idx % 40 == 0) else 6, limit)
         k = 0
         for mask in range(2 ** (n - 1)):
             sched = [i + 1 for i in range(n - 1) if (mask >> i) & 1] + [n]
